@@ -123,5 +123,39 @@ pub fn scenarios(tier: Tier) -> Vec<Scenario> {
         ]);
         v.push(scn("C14/leavers".to_string(), prog, if tier == Tier::Quick { 1 } else { 2 }, opts_elide(), move |r, _| check(r, None)));
     }
+    // the consumer touches the subscriber list (a second iterator created / dropped, a plain
+    // subscriber added) while its first iterator is backed up: slot full, next notification pending
+    for kind in 0..3u32 {
+        for parked in [true, false] {
+            if tier == Tier::Quick && !parked && kind != 0 {
+                continue;
+            }
+            let prog = Program::new(StoreSpec::new(1, 2, Pol::Block));
+            let mut cons = vec![];
+            if kind == 2 {
+                cons.push(Op::IterOpen(6));
+            }
+            cons.extend([Op::IterOpen(IT), Op::OpenGate(2, 1), Op::PassGate(1)]);
+            match kind {
+                0 => cons.extend([Op::IterOpen(6), Op::IterClose(6)]),
+                1 => cons.push(Op::AddSub { id: 7, gated: false, reads: false }),
+                _ => cons.push(Op::IterClose(6)),
+            }
+            cons.extend([Op::IterNext(IT, 10), Op::IterNext(IT, 1), Op::IterClose(IT)]);
+            let mut main = vec![Op::AddSub { id: D, gated: false, reads: false }, Op::SpawnAll, Op::PassGate(2), Op::Dispatch(Act::new(100)), Op::Dispatch(Act::new(101))];
+            if parked {
+                main.push(Op::Quiesce);
+            }
+            main.extend([Op::OpenGate(1, 1), Op::Stop, Op::JoinAll]);
+            let prog = prog.thread("consumer", cons).main(main);
+            v.push(scn(
+                format!("C14/backed-up/{}{}", ["second-iter", "add-sub", "drop-other"][kind as usize], if parked { "" } else { "-free" }),
+                prog,
+                if tier == Tier::Quick { 1 } else if parked { 3 } else { 2 },
+                opts_elide(),
+                move |r, _| check(r, None),
+            ));
+        }
+    }
     v
 }
